@@ -16,6 +16,7 @@ import (
 	"fmt"
 	"hash/fnv"
 	"sort"
+	"strings"
 	"sync"
 
 	"github.com/blinklabs-io/gouroboros/ledger"
@@ -32,7 +33,8 @@ func init() {
 	core.Register(&core.Monitor{
 		ID: "C07",
 		Rule: "corpus blocks of every era + generated blocks (corpus Dijkstra block carrying the corpus Dijkstra transaction twice; Babbage corpus block with every transaction doubled = 28 transactions), each re-encoded with cborx under: identity; " +
-			"every structural class of container (block, bodies, body, outputs, output, witness sets, witness set, datum/redeemer/script lists, aux map, Byron payload arrays, Dijkstra nested arrays, inner containers) x sampled members x each other header form (direct,1,2,4,8-byte,indefinite); bulk policies; random per-node policies (PRNG). " +
+			"every structural class of container (block, bodies, body, outputs, output, witness sets, witness set, datum/redeemer/script lists, aux map, Byron payload arrays, Dijkstra nested arrays, inner containers) x sampled members x each other header form (direct,1,2,4,8-byte,indefinite); " +
+			"every class of TAG (tag 258 sets on witness lists and body sets, tag 24 wrappers, tag 259 aux data, ...) x sampled members x every head width that can carry the tag number (direct,1,2,4,8 bytes) - on the corpus blocks and on generated Alonzo/Babbage/Conway/Dijkstra blocks whose witness lists (Conway+: also body sets) were wrapped in #6.258 and given native + Plutus V1..V4 scripts; the run is inconclusive unless a #6.258 script list was reached with a 2-, 4- and 8-byte tag head; bulk policies; random per-node policies (PRNG). " +
 			"A case is one (variant, extractor function) pair; it is non-trivial when the era decoder accepted the variant, the block has >= 1 transaction and every reported range was compared with ground truth; distinct by (function, hash of the input bytes)",
 		MinNontrivial: 300,
 		Assumptions: []string{
@@ -203,9 +205,8 @@ func compare(offs *lcommon.BlockTransactionOffsets, l *blockx.Layout) ([]miss, i
 				id := fmt.Sprintf("tx%d.script%d.%d", i, wk, k)
 				r, ok := loc.Scripts[key]
 				if !ok {
-					if !wp.Tagged[wk] {
-						out = append(out, miss{id: id, kind: "script", node: s, missing: true, want: rng(s), detail: "no range reported under the key of this script"})
-					}
+					// (script lists are located in plain and in #6.258 form alike)
+					out = append(out, miss{id: id, kind: "script", node: s, missing: true, want: rng(s), detail: "no range reported under the key of this script"})
 					continue
 				}
 				claimedS[r] = true
@@ -243,6 +244,7 @@ type blk struct {
 	orig    *cborx.Node
 	lay     *blockx.Layout
 	classes []blockx.Classified
+	tags    []blockx.Classified // tag nodes (tag 258 sets, tag 24 wrappers, tag 259 aux data, ...)
 	byOrd   map[int]string
 }
 
@@ -259,6 +261,9 @@ type variant struct {
 
 // formClass names a header form relative to the container it is applied to.
 func formClass(n *cborx.Node, f cborx.Form) string {
+	if n.Kind == cborx.Tag {
+		return "tag-" + f.String() // head width of the tag number: direct, w1, w2, w4, w8
+	}
 	if f == cborx.FormIndef {
 		return "indef"
 	}
@@ -336,7 +341,7 @@ func isInner(class string) bool {
 func singlesFor(b *blk, perClass, perInner int, r *core.Rand) []variant {
 	by := map[string][]blockx.Classified{}
 	var names []string
-	for _, c := range b.classes {
+	for _, c := range append(append([]blockx.Classified{}, b.classes...), b.tags...) {
 		if _, ok := by[c.Class]; !ok {
 			names = append(names, c.Class)
 		}
@@ -347,7 +352,7 @@ func singlesFor(b *blk, perClass, perInner int, r *core.Rand) []variant {
 	for _, name := range names {
 		list := by[name]
 		want := perClass
-		if isInner(name) {
+		if isInner(name) || strings.Contains(name, "-inner.tag") {
 			want = perInner
 		}
 		pick := map[int]bool{0: true}
@@ -387,6 +392,112 @@ func synthDijkstra(base []byte, txs []*cborx.Node) ([]byte, bool) {
 	}
 	body.Items[1] = arr
 	return t.Encode(), true
+}
+
+// tagged258 wraps a plain array in the #6.258 set tag (no-op otherwise).
+func tagged258(n *cborx.Node) *cborx.Node {
+	if n == nil || n.Kind != cborx.Array {
+		return n
+	}
+	return cborx.T(258, n)
+}
+
+// sortedMap rebuilds a map node from key -> value with ascending uint keys.
+func sortedMap(m *cborx.Node, kv map[uint64]*cborx.Node) {
+	keys := make([]uint64, 0, len(kv))
+	for k := range kv {
+		keys = append(keys, k)
+	}
+	sort.Slice(keys, func(i, j int) bool { return keys[i] < keys[j] })
+	var items []*cborx.Node
+	for _, k := range keys {
+		items = append(items, cborx.U(k), kv[k])
+	}
+	m.Items = items
+	if m.Form != cborx.FormIndef {
+		m.Form = cborx.FormMinimal
+	}
+}
+
+// withTaggedSets returns a copy of a Shelley+ / Dijkstra block in which the
+// witness-set lists (vkeys, bootstrap, native and Plutus script lists, datums)
+// and - bodySets - the body sets (inputs, certificates, collateral, required
+// signers, reference inputs) are #6.258 sets, and in which the first and last
+// transaction carry one script of every kind in scriptKeys they did not have
+// (native: [0, keyhash]; Plutus: an opaque byte string), so that the tagged
+// script-list path of the extractor is really walked.
+func withTaggedSets(l *blockx.Layout, bodySets bool, scriptKeys []uint64) []byte {
+	t := l.Root.Clone()
+	nl, err := blockx.AnalyzeNode(l.Type, l.Src, t) // same shape, nodes of the clone
+	if err != nil || len(nl.Txs) == 0 {
+		return nil
+	}
+	for i := range nl.Txs {
+		tx := &nl.Txs[i]
+		if w := tx.Witness; w != nil && w.Kind == cborx.Map {
+			kv := map[uint64]*cborx.Node{}
+			for q := 0; q+1 < len(w.Items); q += 2 {
+				if w.Items[q].Kind == cborx.Uint {
+					kv[w.Items[q].Arg] = w.Items[q+1]
+				}
+			}
+			if len(kv)*2 != len(w.Items) {
+				continue
+			}
+			if i == 0 || i == len(nl.Txs)-1 {
+				for _, k := range scriptKeys {
+					if _, ok := kv[k]; ok {
+						continue
+					}
+					if k == 1 {
+						kh := make([]byte, 28)
+						for q := range kh {
+							kh[q] = byte(0x40 + i + q)
+						}
+						kv[k] = cborx.A(cborx.A(cborx.U(0), cborx.B(kh)), cborx.A(cborx.U(1), cborx.A(cborx.A(cborx.U(0), cborx.B(kh)))))
+					} else {
+						kv[k] = cborx.A(cborx.B([]byte{0x4d, 0x01, 0x00, 0x00, 0x33, 0x22, 0x22, byte(k), byte(i)}), cborx.B([]byte{0x45, 0x01, 0x00, 0x00, byte(k), 0x22, 0x33}))
+					}
+				}
+			}
+			for _, k := range []uint64{0, 1, 2, 3, 4, 6, 7, 8} {
+				if v, ok := kv[k]; ok {
+					kv[k] = tagged258(v)
+				}
+			}
+			sortedMap(w, kv)
+		}
+		if body := tx.Body; bodySets && body != nil && body.Kind == cborx.Map {
+			for q := 0; q+1 < len(body.Items); q += 2 {
+				if body.Items[q].Kind != cborx.Uint {
+					continue
+				}
+				switch body.Items[q].Arg {
+				case 0, 4, 13, 14, 18:
+					body.Items[q+1] = tagged258(body.Items[q+1])
+				}
+			}
+		}
+	}
+	return t.Encode()
+}
+
+// scriptListTagForms returns the head forms of the #6.258 tags found on
+// script lists (witness keys 1,3,6,7,8) of the block.
+func scriptListTagForms(l *blockx.Layout) []cborx.Form {
+	var out []cborx.Form
+	for i := range l.Txs {
+		w := l.Txs[i].Witness
+		if w == nil || w.Kind != cborx.Map {
+			continue
+		}
+		for _, k := range blockx.ScriptKeys {
+			if v := w.MapGet(uint64(k)); v != nil && v.Kind == cborx.Tag && v.Arg == 258 && v.Items[0].Kind == cborx.Array && len(v.Items[0].Items) > 0 {
+				out = append(out, v.CurrentForm())
+			}
+		}
+	}
+	return out
 }
 
 // ---------------------------------------------------------------- monitor
@@ -502,7 +613,7 @@ func (m *mon) keyFor(fn string, b *blk, v variant, l *blockx.Layout, mi miss) st
 	}
 	// bulk / random policy: find the non-minimal container on the path to the
 	// component which, switched alone, already mis-reports the same component.
-	for _, a := range blockx.NonMinimalAncestors(l.Root, mi.node) {
+	for _, a := range blockx.NonMinimalPath(l.Root, mi.node) {
 		ord := ordOf(l.Root, a)
 		if ord < 0 {
 			continue
@@ -537,6 +648,15 @@ func (m *mon) judge(fn string, b *blk, v variant, x []byte, l *blockx.Layout, bl
 	ms, n := compare(offs, l)
 	c.Count("ranges_compared", n)
 	c.Count("accepted_"+fn, 1)
+	// observation (not judged): components inside #6.258 datum sets / tagged redeemers the extractor leaves out
+	if len(offs.Transactions) == len(l.Txs) && !blockx.IsByron(l.Type) {
+		for i := range l.Txs {
+			wp := blockx.WitnessParts(l.Txs[i].Witness)
+			if wp.Tagged[4] && len(wp.Datums) > 0 && len(offs.Transactions[i].Datums) == 0 {
+				c.Count("observed_tagged_datum_set_without_ranges_"+fn, 1)
+			}
+		}
+	}
 	if len(l.Txs) > 0 {
 		hh := fnv.New64a()
 		hh.Write(x)
@@ -658,6 +778,42 @@ func run(c *core.Ctx) {
 		}
 	}
 
+	// generated blocks whose witness-set lists (and, Conway+, body sets) are
+	// #6.258 sets and which carry scripts of every kind: corpus blocks never
+	// use a non-minimal tag head and the pre-Conway ones have no tagged sets
+	for _, b := range append([]corpus.Block{}, inputs...) {
+		var keys []uint64
+		switch {
+		case b.Name == "alonzo":
+			keys = []uint64{1, 3}
+		case b.Name == "babbage":
+			keys = []uint64{1, 3, 6}
+		case b.Name == "conway":
+			keys = []uint64{1, 3, 6, 7}
+		case b.Name == "dijkstra_gen_w30tx":
+			keys = []uint64{1, 3, 6, 7, 8}
+		default:
+			continue
+		}
+		l, err := blockx.Analyze(b.Type, b.Cbor)
+		if err != nil {
+			continue
+		}
+		for _, bodySets := range []bool{b.Type >= corpus.TypeConway, false} {
+			gb := withTaggedSets(l, bodySets, keys)
+			if gb == nil {
+				continue
+			}
+			if _, derr := ledger.NewBlockFromCbor(b.Type, gb, skipCfg()); derr != nil {
+				c.Count("generated_tagged_block_rejected_"+b.Name, 1)
+				c.Note("rejected_tagged_"+b.Name, derr.Error())
+				continue
+			}
+			inputs = append(inputs, corpus.Block{Name: b.Name + "_gen_tagged", Type: b.Type, Cbor: gb})
+			break
+		}
+	}
+
 	type bcase struct {
 		b *blk
 		v variant
@@ -685,9 +841,14 @@ func run(c *core.Ctx) {
 			continue
 		}
 		b := &blk{Block: in, orig: orig, lay: lay, classes: lay.Classes(), byOrd: map[int]string{}}
+		b.tags = lay.TagClasses()
 		for _, cl := range b.classes {
 			b.byOrd[cl.Ord] = cl.Class
 		}
+		for _, cl := range b.tags {
+			b.byOrd[cl.Ord] = cl.Class
+		}
+		c.Note("tags_"+in.Name, len(b.tags))
 		m.blocks = append(m.blocks, b)
 		c.Note("txs_"+in.Name, len(lay.Txs))
 		r := c.Rand("plan", in.Name)
@@ -740,10 +901,20 @@ func run(c *core.Ctx) {
 		if bc.v.ident || i%173 == 0 {
 			c.Sample(map[string]any{"block": bc.b.Name, "policy": bc.v.name, "nodes_changed": changed, "txs": len(l.Txs), "input_hex": core.Hex(x)})
 		}
+		for _, f := range scriptListTagForms(l) {
+			c.Count("tagged_script_lists_reached_tag-"+f.String(), 1)
+		}
 		for _, fn := range fns {
 			m.judge(fn, bc.b, bc.v, x, l, blkObj)
 		}
 	})
+	// the #6.258 script-list path must have been walked with every head width
+	// that can carry the tag number 258 (2, 4 and 8 bytes)
+	for _, f := range []cborx.Form{cborx.Form2, cborx.Form4, cborx.Form8} {
+		if c.Counter("tagged_script_lists_reached_tag-"+f.String()) == 0 {
+			c.Inconclusive("no accepted variant had a #6.258 script list with a " + f.String() + " tag head")
+		}
+	}
 	if c.Counter("decoder_accepted") == 0 {
 		c.Inconclusive("no variant was accepted by the era decoders")
 	}
